@@ -1,0 +1,40 @@
+//go:build verif
+
+package paml
+
+// Property C19 (author C19b): the PAML writer only reads the alignment it is given (see io/fasta for the scheme).
+
+//@ func WriteAlignment
+//@   props C19
+//@   requires al != nil && rowsok(al)
+//@   modifies nothing
+//@   loop 1
+//@     invariant 0 <= cursize
+//@     decreases al.length - cursize
+//@   loop 1 in (*seqbag).Iterate
+//@     invariant stop == false
+//@     decreases nrows(al) - $i
+//@   loop 1 in (*seqbag).IterateChar
+//@     invariant stop == false && 0 <= cursize
+//@     decreases nrows(al) - $i
+
+// names only
+//@ func WriteAlignment$1
+//@   props C19
+//@   inline
+//@   ensures result == false
+//@   modifies gf(buflen; buf), gfa(bufdata; buf)
+
+// one block of residues per row
+//@ func WriteAlignment$2
+//@   props C19
+//@   inline
+//@   requires 0 <= cursize
+//@   ensures result == false
+//@   modifies gf(buflen; buf), gfa(bufdata; buf)
+//@   loop 1
+//@     invariant cursize <= i && 0 <= cursize
+//@     decreases len(seq) - i
+//@   loop 2
+//@     invariant i <= j && 0 <= i && end <= len(seq) && cursize <= i
+//@     decreases end - j
